@@ -25,6 +25,26 @@ import (
 	"verif/harness/vlib"
 )
 
+// coqPrelude is written at the top of every case file: the model, and the unpackers for
+// byte strings and numbers written as primitive-integer literals (B len [w1; w2; ..]:
+// seven bytes per word, big-endian inside a word, the last word holding the remaining
+// len mod 7 bytes).  coqc reads such literals about ten times faster than string or N
+// literals.  Keeping these definitions here keeps Coq's Uint63 library (and the axioms
+// it declares) out of the dependency cone of the theorems.
+var coqPrelude = []string{
+	"From Model Require Import C11_Metadata.",
+	"From Lib Require Import Bytes.",
+	"From Coq Require Import Uint63.",
+	"Definition N_of_int (w : int) : N := Z.to_N (Uint63.to_Z w).",
+	"Definition nat_of_int (w : int) : nat := Z.to_nat (Uint63.to_Z w).",
+	"Fixpoint bytes_le (k : nat) (n : N) : bytes := match k with O => [] | S k' => N.land n 255%N :: bytes_le k' (N.shiftr n 8%N) end.",
+	"Fixpoint unpack (len : nat) (ws : list int) : bytes := match ws with [] => [] | w :: r => let k := Nat.min len 7%nat in rev_append (bytes_le k (N_of_int w)) (unpack (len - k)%nat r) end.",
+	"Definition B (len : int) (ws : list int) : bytes := unpack (nat_of_int len) ws.",
+	"Definition U (code : int) (raw : bytes) : proto := PUnknown (N_of_int code) raw.",
+	"Definition EncCaseI (ins : list proto) (m : obs bytes) (d : obs (list proto)) (ids : list int) (gets : list (int * option int)) (valid : bool) : enc_case := EncCase ins m d (map N_of_int ids) (map (fun g => (N_of_int (fst g), option_map nat_of_int (snd g))) gets) valid.",
+	"Definition DecCaseI (b : bytes) (d : obs (list proto)) (alloc : int) : dec_case := DecCase b d (N_of_int alloc).",
+}
+
 type Replay struct {
 	Kind  string  `json:"kind"` // enc | dec
 	Specs []PSpec `json:"specs,omitempty"`
@@ -250,7 +270,7 @@ func main() {
 	limitOwnMemory(8 << 30)
 	c := vlib.Init("C11")
 	defer c.Finish()
-	req := []string{"From Model Require Import C11_Metadata.", "From Coq Require Import Uint63."}
+	req := coqPrelude
 	c.Family("enc", req, "enc_case_ok", 300)
 	c.Family("dec", req, "dec_case_ok", 400)
 	c.Family("lim", req, "lim_case_ok", 50)
